@@ -374,7 +374,7 @@ main(void)
             vp_reply(r.tok[0], "ok %u", lyht_get_fixed_size((uint32_t)strtoul(r.tok[3], NULL, 10)));
         } else if (!strcmp(r.tok[2], "hist") && r.ntok == 9) {
             do_hist(&r);
-        } else if (!strcmp(r.tok[2], "dict") && r.ntok == 6) {
+        } else if ((!strcmp(r.tok[2], "dict") || !strcmp(r.tok[2], "dictf")) && r.ntok == 6) {
             do_dict(&r);
         } else {
             vp_reply(r.tok[0], "err BadOp");
